@@ -119,11 +119,13 @@ def rule_or_reindex(repo, col):
         ok = False
         for n in body_walk(f):
             if isinstance(n, ast.Assign) and \
-                    dotted(n.targets[0]) == 'self.%s' % field and \
-                    isinstance(n.value, ast.Call) and \
-                    call_name(n.value) == 'index_list' and \
-                    dotted(n.value.args[0]) == src:
-                ok = True
+                    dotted(n.targets[0]) == 'self.%s' % field:
+                vals = [n.value.body, n.value.orelse] if isinstance(
+                    n.value, ast.IfExp) else [n.value]
+                if any(isinstance(v, ast.Call) and
+                       call_name(v) == 'index_list' and v.args and
+                       dotted(v.args[0]) == src for v in vals):
+                    ok = True
         col.check(ok, rule, TABLE, 'Table._index_ids', 'rebuild:%s' % field,
                   f, '%s rebuilt from %s' % (field, src),
                   '%s is not rebuilt from %s' % (field, src))
@@ -1367,9 +1369,31 @@ def rule_concat(repo, col):
     raises = [n for n in cfg.stmt_nodes() if n.kind == 'stmt' and
               isinstance(n.stmt, ast.Raise) and
               'DisjointIDError' in unparse(n.stmt)]
-    stacks = [n for n in cfg.stmt_nodes() if n.kind == 'stmt' and any(
-        isinstance(c, ast.Call) and dotted(c.func) == 'stack'
-        for c in walk_shallow(n.stmt))]
+    # the stacking functions: hstack / vstack or a local bound to one
+    stack_fns = {'hstack', 'vstack'}
+    for a_ in ast.walk(f):
+        if isinstance(a_, ast.Assign) and isinstance(a_.value, ast.Name) \
+                and a_.value.id in ('hstack', 'vstack'):
+            stack_fns |= {t.id for t in a_.targets
+                          if isinstance(t, ast.Name)}
+        elif isinstance(a_, ast.Assign) and isinstance(
+                a_.value, ast.Tuple) and isinstance(
+                a_.targets[0], ast.Tuple) and len(a_.value.elts) == len(
+                a_.targets[0].elts):
+            for t, v in zip(a_.targets[0].elts, a_.value.elts):
+                if isinstance(v, ast.Name) and v.id in ('hstack', 'vstack') \
+                        and isinstance(t, ast.Name):
+                    stack_fns.add(t.id)
+    # local functions that stack are stacking where they are *called*
+    for d_ in ast.walk(f):
+        if isinstance(d_, ast.FunctionDef) and d_ is not f and any(
+                isinstance(c, ast.Call) and dotted(c.func) in stack_fns
+                for c in ast.walk(d_)):
+            stack_fns.add(d_.name)
+    stacks = [n for n in cfg.stmt_nodes() if n.kind == 'stmt' and
+              not isinstance(n.stmt, (ast.FunctionDef, ast.ClassDef)) and
+              any(isinstance(c, ast.Call) and dotted(c.func) in stack_fns
+                  for c in walk_shallow(n.stmt))]
     if not raises:
         col.bad(rule, TABLE, 'Table.concat', 'refusal', f,
                 'no DisjointIDError is raised: overlapping ids on the '
@@ -1569,9 +1593,21 @@ def rule_to_sparse(repo, col):
         'list-of-list': 'list_list_to_sparse',
     }
     called = {}
+    # a converter may be selected first and called through a local
+    via = {}
+    for n in body_walk(f):
+        if isinstance(n, ast.Assign) and isinstance(n.value, ast.Name) and \
+                n.value.id in CONVERTERS:
+            for t in n.targets:
+                if isinstance(t, ast.Name):
+                    via.setdefault(t.id, set()).add(n.value.id)
     for n in body_walk(f):
         if isinstance(n, ast.Call) and call_name(n) in CONVERTERS:
             called.setdefault(call_name(n), []).append(n)
+        elif isinstance(n, ast.Call) and isinstance(n.func, ast.Name) and \
+                n.func.id in via:
+            for conv_ in via[n.func.id]:
+                called.setdefault(conv_, []).append(n)
     for form, conv in forms.items():
         ok = conv in called and repo.has_func(TABLE, conv)
         col.check(ok, rule, TABLE, 'Table._to_sparse', 'form:%s' % form,
@@ -1758,9 +1794,19 @@ def rule_importers(repo, col):
     coo = [n for n in body_walk(f) if isinstance(n, ast.Call) and
            call_name(n) == 'coo_matrix']
     ok = None
-    if len(ctor) == 1 and len(coo) == 1 and len(ctor[0].args) >= 3:
-        obs_list, samp_list = dotted(ctor[0].args[1]), dotted(
-            ctor[0].args[2])
+
+    def ctor_arg(call, pos, name):
+        # positional or keyword argument of the Table constructor
+        if len(call.args) > pos and not any(
+                isinstance(a_, ast.Starred) for a_ in call.args[:pos + 1]):
+            return call.args[pos]
+        return kwarg(call, name)
+    if len(ctor) == 1 and len(coo) == 1 and \
+            ctor_arg(ctor[0], 1, 'observation_ids') is not None and \
+            ctor_arg(ctor[0], 2, 'sample_ids') is not None:
+        obs_list, samp_list = dotted(
+            ctor_arg(ctor[0], 1, 'observation_ids')), dotted(
+            ctor_arg(ctor[0], 2, 'sample_ids'))
         arg = coo[0].args[0]
         if isinstance(arg, ast.Tuple) and len(arg.elts) == 2 and \
                 isinstance(arg.elts[1], ast.Tuple):
@@ -1812,8 +1858,10 @@ def rule_importers(repo, col):
             src = assigns.get(target, [(None, None)])[0][0]
             return src is not None and listname in {
                 x.id for x in ast.walk(src) if isinstance(x, ast.Name)}
-        ok = feeds(apps.get('0', '?'), dotted(ctor[0].args[1])) and \
-            feeds(apps.get('1', '?'), dotted(ctor[0].args[2]))
+        ok = feeds(apps.get('0', '?'), dotted(
+            ctor_arg(ctor[0], 1, 'observation_ids'))) and \
+            feeds(apps.get('1', '?'), dotted(
+                ctor_arg(ctor[0], 2, 'sample_ids')))
         col.check(ok, rule, TABLE, 'Table.from_adjacency', 'record-fields',
                   hdr[0], 'field 0 names the observation, field 1 the '
                   'sample (as in the header)', 'record fields are not '
